@@ -114,6 +114,10 @@ def replace_dict_contract(reg):
     return replace_dict
 
 
+class Answer(tuple):
+    """a result tuple of the actual frontend (a distinct object, so that `is` identifies it)"""
+
+
 class ActualStub:
     """contract of the actual frontend: records what it is handed; queries return an opaque answer token"""
     def __init__(self):
@@ -125,7 +129,19 @@ class ActualStub:
         return list(cs)
 
     def _q(self, kind, e, extra, **kw):
-        tok = ("answer", kind, len(self.queries))
+        """the answer is what a correct frontend may return, as a value the caller could inspect: a tuple of 1..n values for eval (one
+        symbolic value each), a number for min/max, a truth value otherwise.  Identity (`is`) tells whether it is returned unchanged."""
+        c = cur()
+        i = len(self.queries)
+        if kind == "eval":
+            k = 1 + c.choose([True] * max(1, kw.get("n", 1)), "n-results")
+            tok = Answer(SymInt.fresh(f"ans{i}_{j}", 0, 3) for j in range(k))
+        elif kind == "batch_eval":
+            tok = Answer([Answer(SymInt.fresh(f"ans{i}_{j}", 0, 3) for j in range(len(e)))])
+        elif kind in ("max", "min"):
+            tok = SymInt.fresh(f"ans{i}", 0, 3)
+        else:
+            tok = SymBool(z3.Bool(f"ans{i}"))
         self.queries.append((kind, e, tuple(extra), kw, tok))
         return tok
 
@@ -169,9 +185,28 @@ _cache = {}
 def load_rf(reg_holder):
     ns = loader.load(RF_PATH, "claripy.frontend.replacement_frontend")
     import types
-    fake = types.SimpleNamespace(replace_dict=lambda old, d: reg_holder["rd"](old, d), false=FALSE,
-                                 BoolV=lambda b: FALSE() if b is False else (_ for _ in ()).throw(Undecided("BoolV(True)")),
-                                 BVV=lambda v, n: (_ for _ in ()).throw(Undecided("BVV from a Python number")))
+    import claripy as real_claripy
+
+    class FakeClaripy:
+        """contract namespace: the constructors the frontend calls are answered over the universe, everything else is the real package"""
+        replace_dict = staticmethod(lambda old, d: reg_holder["rd"](old, d))
+        false = staticmethod(FALSE)
+        ast = types.SimpleNamespace(BV=EH, Bool=EH, Base=EH, Bits=EH)
+
+        @staticmethod
+        def BoolV(b):
+            if b is False:
+                return FALSE()
+            raise Undecided("BoolV(True)")
+
+        @staticmethod
+        def BVV(v, n):
+            return reg_holder["reg"].add(EH("bv", vals=[z3.Extract(1, 0, proxies._bv(v)) if not isinstance(v, int) else z3.BitVecVal(v & 3, 2)] * U,
+                                            name="bvv", op="BVV", symbolic=False))
+
+        def __getattr__(self, n):
+            return getattr(real_claripy, n)
+    fake = FakeClaripy()
     ns["claripy"] = fake
     ns["Base"] = EH
     return ns
@@ -279,6 +314,7 @@ def ob_replacement(method, tier="quick"):
         EH.n = 0
         reg = Registry()
         reg_holder["rd"] = replace_dict_contract(reg)
+        reg_holder["reg"] = reg
         shape = c.choose([True] * 4, "state")          # (replacements, extra cache entries, constraints)
         nrep, ncache, ncons = [(0, 0, 0), (1, 0, 1), (1, 1, 2), (2, 1, 1)][shape]
         s, terms = _state(c, RF, reg, nrep, ncache, ncons)
